@@ -393,3 +393,50 @@ def main(prop, analyse, mutants=None, description=""):
         traceback.print_exc()
         print("ANALYSIS-ERROR property=%s internal error in the checker" % prop)
         return 2
+
+
+# ----------------------------------------------------------------------------
+# cross-inclusion: a rule group decided by another property's checker that is
+# also a necessary condition of this property, restricted to the files this
+# property anchors
+# ----------------------------------------------------------------------------
+def include_findings(chk, other, files=None, rules=None, why=""):
+    """Run checks/<other>.py's analysis on the same tree and re-report, under
+    this property, its violations located in `files` (prefix match on the
+    repo-relative path) and belonging to `rules` (None = all).  Analysis errors
+    of the included analysis are notes here (they fail the other property's own
+    check); findings the other property lists as known stay known there and are
+    not re-reported."""
+    if getattr(chk, "is_included", False):
+        return 0  # no transitive inclusion
+    import importlib
+    mod = importlib.import_module("checks." + other.lower())
+    sub = Check(mod.PROP, chk.tree, tier=chk.tier, seed=chk.seed)
+    sub.is_included = True
+    sub.guard(lambda c: mod.analyse(c))
+    rid = "via-%s" % mod.PROP
+    chk.rule(rid, "rules of %s restricted to files anchored by %s: %s" % (mod.PROP, chk.prop, why))
+    known_other = load_known(mod.PROP)
+    n = 0
+    for rule, inst, ok, nt, detail in sub.obligations:
+        if rules is not None and not any(rule.startswith(r) for r in rules):
+            continue
+        if ok:
+            n += 1
+    picked = 0
+    for f in sub.findings:
+        if rules is not None and not any(f.rule.startswith(r) for r in rules):
+            continue
+        if files is not None and not any(f.file.startswith(x) or f.file.endswith(x) for x in files):
+            continue
+        if f.key in known_other:
+            chk.note(rid, f.file, "known finding of %s (not re-reported): %s" % (mod.PROP, f.construct))
+            continue
+        picked += 1
+        chk.violation("%s:%s" % (rid, f.rule), f.file, f.func, f.construct, f.line, f.msg)
+    chk.ok(rid, "%d obligations of %s discharged on the shared files" % (n, mod.PROP), nontrivial=n > 0)
+    chk.count("obligations decided by included %s rules" % mod.PROP, n)
+    for e in sub.errors:
+        chk.note(rid, mod.PROP, "included analysis reported an analysis error (decided by %s's own check): %s" % (
+            mod.PROP, e.splitlines()[0][:200]))
+    return picked
